@@ -17,12 +17,16 @@
       (coq/PropGrowMore.v: C02_network_with_late_bindings_and_resets_consistent).
    Such histories may also destroy properties that no binding reads (bound ones included: PropGrowMore.grow_del) - a property
    that IS read can not be destroyed without leaving a binding whose inputs no longer all exist, which C02 does not speak about.
-   PARTIAL: observers that write and moves are covered by
+   5. Move CONSTRUCTION of any property - an input with readers, a bound property, one with observers - keeps coherence
+      (coq/PropMove.v: a re-targeting changes nothing of a tree but its leaf targets, so every tree abstracts to the old abstraction
+      with the source renamed to the destination, and the abstract invariant is stable under that renaming):
+      C02_move_construction_keeps_coherence, C02_network_with_moves_consistent.
+   PARTIAL: observers that write and move ASSIGNMENT are covered by
    PropCheck.check_c02 on every world reached by the generated histories and by correspondence, not by the refinement. *)
 From Coq Require Import List ZArith.
 Import ListNotations.
 From KDB Require Import PropAbs PropAbsProofs.
-From KDB Require Util PropDefs PropLink PropCheck PropSim PropGrow PropGrowMore.
+From KDB Require Util PropDefs PropFlags PropLink PropCheck PropSim PropGrow PropGrowMore PropMove.
 
 (* Inv s [] says: every node of every binding is clean, every cached result is the denotation of its subtree, every
    bound property equals the denotation of its expression, every leaf is subscribed to its input. *)
@@ -106,6 +110,24 @@ Theorem C02_network_with_late_bindings_and_resets_consistent :
 Proof. exact PropGrowMore.grow2_reachable_consistent. Qed.
 Print Assumptions C02_network_with_late_bindings_and_resets_consistent.
 
+(* move construction of ANY property of a coherent world whose observers do not act (NOEMIT: no signal is in the middle of an
+   emission - true between top-level calls, PropFlags.step_noemit) *)
+Theorem C02_move_construction_keeps_coherence :
+  forall fn rtl fuel w src dst w',
+    PropSim.SC w -> PropSim.COH fn w -> PropFlags.NOEMIT w ->
+    PropDefs.step1 fn rtl fuel w (PropDefs.PMoveCtor src dst) = (w', None) -> PropSim.SC w' /\ PropSim.COH fn w'.
+Proof. exact PropMove.grow_movector. Qed.
+Print Assumptions C02_move_construction_keeps_coherence.
+
+(* ... hence, from the empty world: histories of grow_op3 = grow_op2 + move construction *)
+Theorem C02_network_with_moves_consistent :
+  forall fn rtl fuel ops q x pr z,
+    PropMove.grow3_run_ok fn rtl fuel PropDefs.world0 ops ->
+    PropSim.imm_of (PropDefs.run fn rtl fuel ops) q = Some x -> Util.lookup (PropDefs.w_props (PropDefs.run fn rtl fuel ops)) q = Some pr ->
+    PropCheck.den_node fn (PropDefs.values (PropDefs.run fn rtl fuel ops)) (PropDefs.b_root x) = Some z -> PropDefs.pr_value pr = z.
+Proof. exact PropMove.grow3_reachable_consistent. Qed.
+Print Assumptions C02_network_with_moves_consistent.
+
 (* non-vacuity: a chain with a diamond (input 0 reaches property 3 directly and through property 2) and an observer: the history is
    a growing-network history, and after the assignment property 3 holds (5 + 2) + 5 *)
 Example C02_growing_example :
@@ -144,4 +166,17 @@ Example C02_destruction_example :
   PropGrowMore.grow2_run_ok fn true 8 PropDefs.world0 ops /\
   nth_error (PropDefs.w_trace (PropDefs.run fn true 8 ops)) 1 = Some (PropDefs.EvVal (Some 7%Z)) /\
   PropGrowMore.no_reader_b (PropDefs.run fn true 8 (firstn 5 ops)) 2 = false.
+Proof. vm_compute. repeat split; reflexivity. Qed.
+
+(* non-vacuity of the move case: input 0 (read twice by 2, once by 3) and the bound property 2 (read by 3) are move-constructed to
+   10 and 12; assigning to the NEW input updates the chain: 13 = (p10 + p1) + p10 *)
+Example C02_move_example :
+  let fn := fun (f : nat) (l : list Z) => Some (fold_right Z.add 0%Z l) in
+  let ops := [PropDefs.PNew 0 1%Z; PropDefs.PNew 1 2%Z;
+              PropDefs.PBind 2 (PropDefs.EOp2 0 (PropDefs.EProp 0) (PropDefs.EProp 1)) PropDefs.MImmediate;
+              PropDefs.PBind 3 (PropDefs.EOp2 1 (PropDefs.EProp 2) (PropDefs.EProp 0)) PropDefs.MImmediate;
+              PropDefs.PMoveCtor 0 10; PropDefs.PMoveCtor 2 12; PropDefs.PSet 10 5%Z PropDefs.WSet; PropDefs.PGet 3; PropDefs.PGet 12] in
+  PropMove.grow3_run_ok fn true 8 PropDefs.world0 ops /\
+  nth_error (PropDefs.w_trace (PropDefs.run fn true 8 ops)) 1 = Some (PropDefs.EvVal (Some 7%Z)) /\
+  nth_error (PropDefs.w_trace (PropDefs.run fn true 8 ops)) 3 = Some (PropDefs.EvVal (Some 12%Z)).
 Proof. vm_compute. repeat split; reflexivity. Qed.
